@@ -2,6 +2,7 @@
 package main
 
 import (
+	"sort"
 	"fmt"
 	"math"
 	"math/rand"
@@ -374,6 +375,12 @@ func main() {
 		tc += typedFamily("float64", []float64{math.Inf(-1), -math.MaxFloat64, -1, -math.SmallestNonzeroFloat64, 0, math.SmallestNonzeroFloat64, 1, math.MaxFloat64, math.Inf(1)}, tl)
 		tc += typedFamily("float32", []float32{float32(math.Inf(-1)), -math.MaxFloat32, -1, 0, math.SmallestNonzeroFloat32, 1, math.MaxFloat32, float32(math.Inf(1))}, tl)
 		tc += typedFamily("string", []string{"", "\x00", "A", "a", "a\x00", "aa", "b", "\xff", "\xff\xff"}, tl)
+		{
+			// long strings that share prefixes of 8 / 16 bytes and differ in length or near the end
+			long := []string{"/var/log/app.10.log", "/var/log/app.9.log", "/var/log/app.9.log.1", "/var/log/app", "/var/log/apq", "prefix__", "prefix__a", "prefix__ab", "prefix__b", "0123456789abcdef", "0123456789abcdefg", "0123456789abcdeg"}
+			sort.Strings(long)
+			tc += typedFamily("string (long, shared prefixes)", long, tl)
+		}
 		tc += typedFamily("named int", []myInt{-5, 0, 5, math.MaxInt}, tl)
 		tc += typedFamily("named string", []myStr{"", "x", "y"}, tl)
 		r.Set("element_type_family_inputs", tc)
